@@ -218,11 +218,14 @@ func (p Proof) coq() string {
 type Bind struct {
 	Dpop *Proof
 	Cert Handle
+	// Twice: the DPoP header is sent two times (RFC 9449: not more than one); dpop.JWT then reports
+	// "no usable header", which is what the model's b_dpop = None stands for
+	Twice bool `json:",omitempty"`
 }
 
 func (b Bind) coq() string {
 	d := "None"
-	if b.Dpop != nil {
+	if b.Dpop != nil && !b.Twice {
 		d = "(Some " + b.Dpop.coq() + ")"
 	}
 	return fmt.Sprintf("(mkBind %s %s)", d, cN(b.Cert))
